@@ -54,6 +54,17 @@ MUTANTS = [
 
 # ---- behaviour-preserving refactors: every listed check must stay silent (exit 0)
 REFACTORS = [
+    # acceptance tests in log space with log-uniforms drawn in blocks of 4096 (the correct version of seeded C01-j)
+    ("refactor_ensemble_block_log_uniforms", "C01,C03,C09,C15", "inference/mcmc/ensemble.py",
+     ["        self.max_attempts = 100\n",
+      "    def __advance_walker(self, i: int):\n",
+      "            q = exp((self.n_parameters - 1) * log(z) + p - self.walker_probs[i])\n            if self.rng.random() <= q:\n",
+      "        self.ProgressPrinter.iterations_initial(iterations)\n"],
+     ["        self.max_attempts = 100\n        self.block_size = 4096\n        self.log_u = None\n        self.n_used = 0\n",
+      "    def _log_uniform(self):\n        if self.n_used == self.block_size:\n            self.log_u = log(self.rng.random(self.block_size))\n"
+      "            self.n_used = 0\n        self.n_used += 1\n        return self.log_u[self.n_used - 1]\n\n    def __advance_walker(self, i: int):\n",
+      "            log_q = (self.n_parameters - 1) * log(z) + p - self.walker_probs[i]\n            if self._log_uniform() <= log_q:\n",
+      "        self.ProgressPrinter.iterations_initial(iterations)\n        self.log_u = log(self.rng.random(self.block_size))\n        self.n_used = 0\n"]),
     ("refactor_gibbs_uniform_drawn_first", "C01,C03,C09,C15", "inference/mcmc/gibbs.py",
      ["                prop[i] = p.proposal()\n                p_new = self.posterior(prop) * self.inv_temp\n",
       "                    if self.rng.random() < acceptance_prob:\n                        break\n\n            p_old = deepcopy(p_new)"],
